@@ -262,7 +262,12 @@ class World(object):
                 mut.append('instr')
             if canon.ser_expr(eip) != eip_before:
                 mut.append('eip')
-        return [canon.ser_expr(a) for a in affs]
+        out = [canon.ser_expr(a) for a in affs]
+        if self.mode == 'inter':
+            # the caller keeps what it was handed (a basic-block cache would): later calls must not change it
+            self.results[idx] = list(affs)
+            self.watch.append(('exprlist', list(affs), out))
+        return out
 
     def op_simp(self, idx, op, resolved, mut):
         s = sut()
@@ -425,10 +430,28 @@ class World(object):
         s = sut()
         m = self.machines[op['m']]
         affs = []
-        for dst, src in op['affs']:
-            d = self.expr_arg(dst, op.get('shared'), resolved)
-            sr = self.expr_arg(src, op.get('shared'), resolved)
-            affs.append(s.E.ExprAff(d, sr))
+        spec = op['affs']
+        if isinstance(spec, dict) and 'ref' in spec:
+            # the kept result of an earlier lift (the very objects when interleaved, rebuilt from what the lift
+            # returned when isolated)
+            if self.mode == 'inter':
+                kept = self.results.get(spec['ref'])
+                if not isinstance(kept, list):
+                    return None
+                affs = list(kept)
+                self.stats['lift_ref_args'] = self.stats.get('lift_ref_args', 0) + 1
+            else:
+                r = resolved.get(str(spec['ref']))
+                if not (isinstance(r, list) and all(isinstance(x, list) and x and x[0] == '=' for x in r)):
+                    return None
+                affs = [canon.deser_expr(x, s.regs) for x in r]
+        elif spec and isinstance(spec[0], str):
+            return None                 # (a reference that minimisation dropped)
+        else:
+            for dst, src in spec:
+                d = self.expr_arg(dst, op.get('shared'), resolved)
+                sr = self.expr_arg(src, op.get('shared'), resolved)
+                affs.append(s.E.ExprAff(d, sr))
         before = [canon.ser_expr(a) for a in affs]
         try:
             ret = m.eval_instr(affs)
@@ -454,6 +477,8 @@ class World(object):
         for n, (kind, obj, before) in enumerate(self.watch):
             if kind == 'expr':
                 now = canon.ser_expr(obj)
+            elif kind == 'exprlist':
+                now = [canon.ser_expr(x) for x in obj]
             elif kind == 'instr':
                 now = canon.ser_instr_input(obj)
             else:
@@ -698,6 +723,7 @@ def gen_history(rng):
     streams = []
     expr_results = []       # indices of ops returning an expression
     dis_results = []        # (idx, hex)
+    lift_results = []       # indices of lift ops (their results may be kept and evaluated later)
     shared_binds = {}
     # small per-run pools so that collisions are frequent
     epool = [gen.gen_expr(rng, ids, rng.choice([1, 2, 3])) for _ in range(6)]
@@ -715,7 +741,7 @@ def gen_history(rng):
                 q = ['O', '+', [q, ['I', 'uint32', 1]]]
             return q
         epool += [closed_query() for _ in range(rng.choice([1, 2, 3]))]
-    bpool = [rng.choice(gen.BYTES_POOL) for _ in range(4)] + [gen.gen_random_bytes(rng) for _ in range(2)] + gen.gen_family_pool(rng, 4)
+    bpool = [rng.choice(gen.BYTES_POOL) for _ in range(3)] + [gen.gen_random_bytes(rng) for _ in range(2)] + gen.gen_family_pool(rng, rng.choice([4, 6, 8]))
     att_share = rng.choice([0.1, 0.5, 0.9])
     mtx = rng.sample(gen.ASM_MEMTXT, 3)
     lpool = [gen.gen_asm_line(rng, mtx) for _ in range(6)] + gen.gen_line_family(rng, False, 4)
@@ -800,6 +826,8 @@ def gen_history(rng):
                 if cands and shared:
                     op['iref'] = rng.choice(cands)
                 ops.append(op)
+            elif y < 0.74 and lift_results and rng.random() < 0.35:
+                ops.append({'op': 'affs', 'm': k, 'affs': {'ref': rng.choice(lift_results)}, 'c': c})
             elif y < 0.74:
                 n = rng.choice([1, 1, 2, 3])
                 affs = []
@@ -866,6 +894,7 @@ def gen_history(rng):
                 if cands and (shared or rng.random() < 0.5):
                     op['iref'] = rng.choice(cands)
                 ops.append(op)
+                lift_results.append(len(ops) - 1)
                 if 'iref' in op and rng.random() < 0.5:
                     # the same instruction object lifted again, under other options
                     op2 = dict(op)
